@@ -79,6 +79,19 @@ func (i *interp) where() string {
 	return fr.fn.String() + " " + i.prog.Fset.Position(fr.cur.Pos()).String()
 }
 
+func (i *interp) stack() string {
+	var sb strings.Builder
+	n := 0
+	for fr := i.curFrame; fr != nil && n < 14; fr = fr.caller {
+		if n > 0 {
+			sb.WriteString(" < ")
+		}
+		sb.WriteString(fr.fn.String())
+		n++
+	}
+	return sb.String()
+}
+
 func (fr *frame) get(key ssa.Value) value {
 	switch key := key.(type) {
 	case nil:
@@ -450,6 +463,10 @@ func (i *interp) callSSA(caller *frame, callpos token.Pos, fn *ssa.Function, arg
 		// package initialisers of other packages are skipped: they run
 		// lazily when one of their globals is first touched.
 		if isPkgInit(fn) && caller != nil && caller.fn.Pkg != fn.Pkg {
+			return nil
+		}
+		// generated amino registration (reflection-driven) is never run
+		if strings.HasPrefix(fn.Name(), "init#") && strings.HasSuffix(i.prog.Fset.Position(fn.Pos()).Filename, "pb3_gen.go") {
 			return nil
 		}
 		name := fn.String()
